@@ -581,7 +581,8 @@ def is_valid_python(source: str) -> bool:
     try:
         ast.parse(source)
         return True
-    except SyntaxError:
+    except (SyntaxError, ValueError):
+        # ValueError: for example null bytes, or an f-string the parser chokes on
         return False
 
 
